@@ -210,6 +210,8 @@ def degree(e: ast.AST, atom, *, depth: int = 0):
             return CONST if w is None else rec(w)
         return Unknown_(f"call {unparse(e.func)[:40]}")
     if isinstance(e, ast.Name):
+        if e.id.isupper():
+            return CONST  # a module-level constant (TWO_PI, PRECISION): does not scale with any input
         return Unknown_(f"name {e.id}")
     return Unknown_(type(e).__name__)
 
